@@ -359,6 +359,13 @@ func runC11(c *Ctx, r *Report) {
 			if obj == nil {
 				return
 			}
+			// a search helper of the package (its returns hand on the pair of a binary search over the receiver's pairs)
+			if callee := call.Common().StaticCallee(); callee != nil && isModulePkg(obj.Pkg()) && obj.Name() != "get" {
+				if ri, bi, _, ok := c.boundsProver().searchSummary(callee); ok {
+					idx, found = extractOf(call, ri), extractOf(call, bi)
+					return
+				}
+			}
 			switch {
 			case obj.Name() == "get" && isModulePkg(obj.Pkg()):
 				idx, found = extractOf(call, 2), extractOf(call, 1)
